@@ -248,6 +248,26 @@ def around(text, opts, limit=400):
     return out
 
 
+# -- statements that consist of exactly ONE group (nothing before, nothing after, no terminator): every per-statement step of a filter that
+#    looks at "the children of the statement" sees a single child there
+LONE_INNER = ['select a\nfrom b', 'select a,\n b\nfrom t\nwhere x = 1\nand y = 2\nor z', 'select 1\nunion\nselect 2', 'select a\nfrom b\njoin c on b.i = c.i\ngroup by a\norder by a',
+              'select a -- c\nfrom b', 'a\nand b', 'x']
+LONE_WRAPS = ['(%s)', '((%s))', '( %s )', 'case when a\nthen (%s)\nelse 2\nend', 'begin\n%s\nend', 'f(%s)', 't.c', 'a,\nb,\n(%s)', 'a\n=\n(%s)', 'a\n+\n(%s)', '[%s]',
+              'if a then\n%s\nend if', 'for i in (%s) loop\nx\nend loop', "x\nwhere\n(%s)", '(%s)\nas\ny', '(%s)::int', 'a\n:=\n(%s)']
+
+
+def lone_group_cases(ctx):
+    out = []
+    for inner in LONE_INNER:
+        for w in LONE_WRAPS:
+            t = w % inner if '%s' in w else w
+            for pre in ('', 'select 1;', 'select 1; '):
+                for o in OPTSETS:
+                    out.append((pre + t, o))
+    ctx.count('lone-group statements', len(out))
+    return out
+
+
 def run(ctx):
     cs = [(c['input'], c.get('options', {})) for c in streams.corpus('C06')] + cases(ctx, ctx.n(900, 20000))
     if not ctx.quick():
@@ -260,7 +280,9 @@ def run(ctx):
         for k in opts:
             ctx.count('opt:' + k)
         oracle(ctx, text, opts)
-    sweeps = multiline_cases(ctx) + neighbour_cases(ctx) + gap_cases(ctx) + separator_cases(ctx) + call_cases(ctx)
+    sweeps = multiline_cases(ctx) + neighbour_cases(ctx) + gap_cases(ctx) + separator_cases(ctx) + call_cases(ctx) + lone_group_cases(ctx)
+    # statements that are large in one dimension (the property has no size bound)
+    sweeps += [(t, ctx.rng.choice(OPTSETS)) for t in gen.scale_texts(ctx.rng) if not (ctx.quick() and len(t) > 12000)]
     for text, opts in sweeps:
         oracle(ctx, text, opts)
     ctx.samples += [[short(t, 70), o] for t, o in cs[:3]]
